@@ -63,6 +63,19 @@ theorem C16_eq_structural [DecidableEq K] (e₁ e₂ : PExpr K) : PExpr.beq e₁
       simp only [PExpr.beq, Bool.and_eq_true, decide_eq_true_eq, ihl, ihr, PExpr.comp.injEq]
       tauto
 
+/-- Operand order is part of the structure: a composite equals the composite with its operands exchanged only when the
+    two operands are equal — for every operator, the commutative ones included (`p + q` and `q + p` are different trees,
+    and `p ** q`, `q ** p` do not even evaluate alike). -/
+theorem C16_eq_swapped_operands [DecidableEq K] (l r : PExpr K) (op : BinOp) :
+    PExpr.beq (.comp l op r) (.comp r op l) = true ↔ l = r := by
+  rw [C16_eq_structural]
+  constructor
+  · intro h
+    injection h
+  · intro h
+    subst h
+    rfl
+
 /-- Construction is total except for number (op) number, which is a `TypeError`. -/
 theorem C16_mk_total (l r : PExpr K) (op : BinOp) :
     (l.isNum = true ∧ r.isNum = true → mk l op r = .error .typeError) ∧
